@@ -1,5 +1,5 @@
 # replay of a bounded stand-in violation (C13): re-run native/c13_tdm.py
 import sys
-print("calls ('lock', 'space1', 'unroll2'): a refused unroll2 changed the locked flag")
+print("calls ('space1', 'roll', 'space1'): the program no longer runs: IndexError: list index out of range")
 print('REPLAY-VIOLATION')
 sys.exit(1)
